@@ -1856,8 +1856,12 @@ def circuit_stream(ctx):
             except Exception:
                 ctx.bump("circuit:gate_not_available:" + g)
         if which == "uni":
-            tn = circ.get_uni()
-        else:
+            try:
+                tn = circ.get_uni()
+            except Exception:  # get_uni needs lazy gate tensors; outside this property's domain
+                ctx.bump("circuit:get_uni_unavailable")
+                which = "psi"
+        if which != "uni":
             tn = circ.psi.copy()
             if which == "amp":
                 for q in rng.sample(range(nq), rng.randint(1, nq)):
